@@ -56,6 +56,14 @@ Definition fail {A} : parser A := fun i => (Back [], i).
 (** [peek]: always restore the cursor *)
 Definition peek {A} (p : parser A) : parser A := fun i => (fst (p i), i).
 
+(** [opt]: a Backtrack becomes [None] with the cursor restored *)
+Definition opt {A} (p : parser A) : parser (option A) :=
+  fun i => match p i with
+           | (Ok a, r) => (Ok (Some a), r)
+           | (Back _, _) => (Ok None, i)
+           | (Cut c, r) => (Cut c, r) | (Panic s, r) => (Panic s, r)
+           end.
+
 (** [alt]: the input is reset before every alternative; the error of the last alternative tried
     wins ([ContextError::or] returns the later one) and the cursor stays where that last
     alternative left it. A Cut or Panic stops the search. *)
